@@ -1,4 +1,5 @@
 import DiffxVerif.Properties.C01
+import DiffxVerif.Properties.C01Run
 #print axioms Diffx.C01.C01_header
 #print axioms Diffx.C01.C01_indent_inverse
 #print axioms Diffx.C01.C01_content_text
@@ -11,3 +12,16 @@ import DiffxVerif.Properties.C01
 #print axioms Diffx.C01.preparedDiff0
 #print axioms Diffx.C01.diffLaws0
 #print axioms Diffx.C01.C01_content_diff_instance
+#print axioms Diffx.C01.C01_sim_step
+#print axioms Diffx.C01.C01_sim_run
+#print axioms Diffx.C01.C01_run
+#print axioms Diffx.C01.C01_run_length
+#print axioms Diffx.C01.runProg_ok
+#print axioms Diffx.C01.laws1
+#print axioms Diffx.C01.laws4
+#print axioms Diffx.C01.laws5
+#print axioms Diffx.C01.runLaws
+#print axioms Diffx.C01.runRecords_eq
+#print axioms Diffx.C01.C01_run_instance
+#print axioms Diffx.RunRT.ProgramLaws
+#print axioms Diffx.RunRT.expectedRecords
